@@ -124,3 +124,79 @@ func (c *Chain) ensureKeyring() error {
 	keyringDone[c.homeDir] = true
 	return nil
 }
+
+// MutateExtension applies one structure-aware mutation to an honest extension. kind selects the
+// mutation, arg parameterises it; both come from the generated case.
+func (c *Chain) MutateExtension(honest []byte, v *Validator, kind, arg int) []byte {
+	var ext layerapp.BridgeVoteExtension
+	_ = json.Unmarshal(honest, &ext)
+	lens := []int{0, 1, 32, 63, 64, 65, 66, 200}
+	cut := func(b []byte, n int) []byte {
+		out := make([]byte, n)
+		copy(out, b)
+		return out
+	}
+	other := c.Validators[mod(arg, len(c.Validators))]
+	switch mod(kind, 16) {
+	case 0: // initial signature A of a hostile length
+		a, b := InitialSigs(v.Operator)
+		ext.InitialSignature = layerapp.InitialSignature{SignatureA: cut(a, lens[mod(arg, len(lens))]), SignatureB: b}
+	case 1: // initial signature B of a hostile length
+		a, b := InitialSigs(v.Operator)
+		ext.InitialSignature = layerapp.InitialSignature{SignatureA: a, SignatureB: cut(b, lens[mod(arg, len(lens))])}
+	case 2: // replay another validator's initial signatures
+		a, b := InitialSigs(other.Operator)
+		ext.InitialSignature = layerapp.InitialSignature{SignatureA: a, SignatureB: b}
+	case 3: // A from self, B from another validator
+		a, _ := InitialSigs(v.Operator)
+		_, b := InitialSigs(other.Operator)
+		ext.InitialSignature = layerapp.InitialSignature{SignatureA: a, SignatureB: b}
+	case 4: // re-send initial signatures although (possibly) registered
+		a, b := InitialSigs(v.Operator)
+		ext.InitialSignature = layerapp.InitialSignature{SignatureA: a, SignatureB: b}
+	case 5: // valset signature of a hostile length / wrong timestamp
+		ext.ValsetSignature.Signature = cut(ext.ValsetSignature.Signature, lens[mod(arg, len(lens))])
+		if arg%2 == 1 {
+			ext.ValsetSignature.Timestamp += uint64(arg)
+		}
+	case 6: // valset signature by a foreign key over the right checkpoint timestamp
+		if idx, err := c.App.BridgeKeeper.GetLatestCheckpointIndex(c.Ctx()); err == nil {
+			if ts, err := c.App.BridgeKeeper.GetValidatorTimestampByIdxFromStorage(c.Ctx(), idx); err == nil {
+				if p, err := c.App.BridgeKeeper.GetValidatorCheckpointParamsFromStorage(c.Ctx(), ts.Timestamp); err == nil {
+					sig, _ := other.Operator.Priv.Sign(p.Checkpoint)
+					ext.ValsetSignature = layerapp.BridgeValsetSignature{Signature: sig, Timestamp: ts.Timestamp}
+				}
+			}
+		}
+	case 7: // duplicate the attestations
+		ext.OracleAttestations = append(ext.OracleAttestations, ext.OracleAttestations...)
+	case 8: // foreign snapshot
+		ext.OracleAttestations = append(ext.OracleAttestations, layerapp.OracleAttestation{Snapshot: []byte(fmt.Sprintf("foreign-snapshot-%d", arg)), Attestation: cut([]byte{1, 2, 3}, lens[mod(arg, len(lens))])})
+	case 9: // attestation signatures of hostile lengths, nil snapshot
+		for i := range ext.OracleAttestations {
+			ext.OracleAttestations[i].Attestation = cut(ext.OracleAttestations[i].Attestation, lens[mod(arg+i, len(lens))])
+		}
+		if arg%3 == 0 {
+			ext.OracleAttestations = append(ext.OracleAttestations, layerapp.OracleAttestation{})
+		}
+	case 10: // drop everything
+		ext = layerapp.BridgeVoteExtension{}
+	case 11: // truncated JSON
+		bz, _ := json.Marshal(ext)
+		if len(bz) > 0 {
+			return bz[:mod(arg*7, len(bz))]
+		}
+		return bz
+	case 12: // not JSON at all
+		return [][]byte{[]byte("null"), []byte("[]"), []byte("\"x\""), {}, {0xff, 0xfe}, []byte("{\"OracleAttestations\":null,\"InitialSignature\":null,\"ValsetSignature\":null}"), []byte("123"), []byte("{\"InitialSignature\":{\"SignatureA\":\"AQ==\",\"SignatureB\":\"AQ==\"}}")}[mod(arg, 8)]
+	case 13: // oversized attestation list
+		for i := 0; i < 50; i++ {
+			ext.OracleAttestations = append(ext.OracleAttestations, layerapp.OracleAttestation{Snapshot: []byte{byte(i)}, Attestation: []byte{byte(arg)}})
+		}
+	case 14: // huge base64 field
+		ext.ValsetSignature.Signature = make([]byte, 5000)
+	case 15: // honest, unchanged
+	}
+	bz, _ := json.Marshal(ext)
+	return bz
+}
